@@ -68,16 +68,30 @@ def witness_programs(ctx):
 
 
 def copy_cover_programs(ctx):
-    """Breadth-first cover of the CopyObject situations the translation must keep apart (S3ClientGen!CopySit):
-    {tagging, metadata} directive x source with/without x replacement empty/non-empty - shortest program each."""
-    r = ctx.tlc("S3ClientGen", "S3Client.Cover.cfg", workers=1, timeout=600, count_mc=False)
-    ps = [p for p in r.printed if isinstance(p, dict) and "keys" in p]
+    """Breadth-first covers (S3ClientGen!CopySit, MpuSit), shortest program into each situation:
+    CopyObject: {tagging, metadata} directive x source with/without x replacement empty/non-empty;
+    CompleteMultipartUpload of an upload created with / without content type, metadata, tags, storage class, parts.
+    A smallest covering selection is always executed."""
+    ps = []
+    for cfg in ("S3Client.Cover.cfg", "S3Client.CoverMpu.cfg"):
+        r = ctx.tlc("S3ClientGen", cfg, workers=1, timeout=600, count_mc=False)
+        if r.outcome != "ok":
+            raise vlib.Infra("situation cover %s failed: %s\n%s" % (cfg, r.outcome, r.output[-1500:]))
+        ps += [p for p in r.printed if isinstance(p, dict) and "keys" in p]
+        ctx.log("situation cover %s: %d states, %.1fs" % (cfg, r.distinct, r.wall))
     keys = set(k for p in ps for k in p["keys"])
-    ctx.log("copy-directive cover: %d situations, %d programs, %d states, %.1fs" % (len(keys), len(ps), r.distinct, r.wall))
-    if r.outcome != "ok" or len(keys) < 16:
-        raise vlib.Infra("copy-directive cover incomplete: %d of 16 situations (%s)\n%s" % (len(keys), r.outcome, r.output[-1500:]))
-    ctx.extra["copy_directive_cover"] = {"situations": sorted(keys), "programs": len(ps)}
-    return [p["calls"] for p in ps]
+    ncopy = sum(1 for k in keys if k.startswith('<<"tags"') or k.startswith('<<"meta"'))
+    nmpu = sum(1 for k in keys if k.startswith('<<"mpu-'))
+    if ncopy < 16 or nmpu < 10:
+        raise vlib.Infra("situation cover incomplete: %d of 16 copy and %d of 10 multipart situations" % (ncopy, nmpu))
+    chosen, covered = [], set()
+    while covered != keys:
+        best = max(ps, key=lambda p: (len(set(p["keys"]) - covered), -len(p["calls"])))
+        chosen.append(best)
+        covered |= set(best["keys"])
+    ctx.log("situation cover: %d situations, %d programs selected of %d" % (len(keys), len(chosen), len(ps)))
+    ctx.extra["situation_cover"] = {"situations": sorted(keys), "programs": len(chosen)}
+    return [p["calls"] for p in chosen]
 
 
 def _corrupt_client_ctype(prog):
@@ -156,8 +170,8 @@ def run(ctx):
         raise vlib.Infra("operations never generated: %s" % missing)
     ctx.assumptions += [
         "programs are random walks of the model (TLC -simulate) plus TLC's shortest witness program per open deviation "
-        "plus a breadth-first cover of the CopyObject directive situations (directive x source has tags/metadata x "
-        "replacement empty/non-empty)",
+        "plus breadth-first covers of the CopyObject directive situations (directive x source has tags/metadata x "
+        "replacement empty/non-empty) and of completed multipart uploads created with/without each option",
         "both runs start from fresh, identically configured stacks; the endpoint storage is additionally read directly",
         "a rejected program is reported and dropped; the remaining programs are still validated",
     ]
